@@ -1273,6 +1273,54 @@ mod verif_driver_compile {
         println!("VERIF-CASES fn=entry_point n={n}");
     }
 
+    // ---- C02: two metadata entries under ONE label: the map has one entry per label, so either the transaction is refused or
+    // ... there is no sum of two metadata values: refused.  The first value is never silently replaced by the second.
+    #[test]
+    fn metadata_entries_of_one_label_are_not_dropped() {
+        let mut n = 0;
+        for (a, b) in [(111i128, 222i128), (222, 111), (5, 5)] {
+            n += 1;
+            let mut tx = empty_tx();
+            tx.metadata = vec![tir::Metadata { key: num(674), value: num(a) }, tir::Metadata { key: num(674), value: num(b) }];
+            match quiet(|| compile_auxiliary_data(&tx)) {
+                Err(p) => witness("c02_cardano/compile_auxiliary_data#reachable-panic", "compile_auxiliary_data", format!("two entries under label 674: {a} and {b}"), format!("panic:{p}"), "Ok or Err"),
+                Ok(Err(_)) => {}
+                Ok(Ok(aux)) => {
+                    let entries = match &aux { Some(primitives::AuxiliaryData::PostAlonzo(p)) => p.metadata.as_ref().map(|m| m.len()).unwrap_or(0), _ => 0 };
+                    if a != b && entries < 2 {
+                        witness("c02_cardano/compile_auxiliary_data#repeated-label", "compile_auxiliary_data", format!("two metadata entries under label 674, values {a} and {b} class=repeated-metadata-label"), format!("Ok with {entries} entry: the value {a} is gone"), "an error (a label holds one value), never a silently replaced value");
+                    }
+                }
+            }
+        }
+        println!("VERIF-CASES fn=compile_auxiliary_data n={n}");
+    }
+
+    // ---- C10: the same UTxO named by two reference (or collateral) blocks - one UTxO may hold an oracle datum and a reference
+    // script - is listed once: the fields are sets.
+    #[test]
+    fn a_utxo_named_by_two_blocks_is_listed_once() {
+        let mut n = 0;
+        let r = |t: u8, i: u32| tx3_tir::model::core::UtxoRef { txid: vec![t; 32], index: i };
+        let show = |v: &Vec<primitives::TransactionInput>| v.iter().map(|i| format!("{:02x}#{}", i.transaction_id[0], i.index)).collect::<Vec<_>>().join(" ");
+        for (what, f) in [("reference inputs", 0u8), ("collateral", 1)] {
+            n += 1;
+            let mut tx = empty_tx();
+            tx.references = vec![tir::Expression::UtxoRefs(vec![r(7, 0)]), tir::Expression::UtxoRefs(vec![r(8, 1)]), tir::Expression::UtxoRefs(vec![r(7, 0)])];
+            tx.collateral = vec![tir::Collateral { utxos: tir::Expression::UtxoRefs(vec![r(7, 0)]) }, tir::Collateral { utxos: tir::Expression::UtxoRefs(vec![r(7, 0), r(9, 2)]) }];
+            let got = if f == 0 { quiet(|| compile_reference_inputs(&tx)) } else { quiet(|| compile_collateral(&tx)) };
+            if let Ok(Ok(list)) = got {
+                let mut seen = std::collections::BTreeSet::new();
+                if list.iter().any(|i| !seen.insert((i.transaction_id.to_vec(), i.index))) {
+                    let (ob, fname) = if f == 0 { ("c10_cardano/compile_reference_inputs#no-duplicates", "compile_reference_inputs") } else { ("c10_cardano/compile_collateral#no-duplicates", "compile_collateral") };
+                    witness(ob, fname, format!("the UTxO 07#0 named by two {what} blocks class=one-utxo-in-two-blocks"), format!("{what}: {}", show(&list)), "every UTxO once (the field is a set)");
+                }
+            }
+        }
+        println!("VERIF-CASES fn=compile_reference_inputs n={n}");
+        println!("VERIF-CASES fn=compile_collateral n={n}");
+    }
+
     // ---- C02: two withdrawal directives for the SAME reward account: the body's withdrawals map has one entry per account, so
     // either the entry holds the sum or the transaction is refused - the amount of one directive is never silently dropped.
     #[test]
